@@ -27,6 +27,10 @@ type Field struct {
 	Type Type
 }
 
+// maxNestingDepth bounds how deeply record types may contain one another. Message types in
+// practice nest a handful of levels.
+const maxNestingDepth = 1000
+
 func resolveDependentFields(
 	parentPackage string,
 	dependencies map[string]string,
@@ -108,6 +112,11 @@ func resolveDependentFields(
 			// a type that (transitively) contains itself has no finite expansion
 			if resolving[resolvedType] {
 				return nil, fmt.Errorf("recursive definition of type %s", resolvedType)
+			}
+			// the types being resolved form the current nesting path; resolution recurses once per
+			// level, so the depth a definition may ask for has to be bounded.
+			if len(resolving) >= maxNestingDepth {
+				return nil, fmt.Errorf("type %s is nested more than %d levels deep", resolvedType, maxNestingDepth)
 			}
 			// a type used by several fields is resolved once: re-resolving it for every use makes
 			// the work exponential in the depth of the definition (two fields per level suffice).
